@@ -48,4 +48,14 @@ PROPS = {
         'level_note': 'Trusted: Coq kernel, extraction + driver.ml, harness, translator. Closest ranges over visited nodes (find), responders (get), accepting nodes (put); see DESIGN.md.',
         'assumptions': ['ids have the fixed peer-id length; get/put keys of 32 bytes in the correspondence (no distance ties)'],
     },
+    'C17': {
+        'coq': ['Props/C17.v', 'Tie/T_C17.v'],
+        'rule': 'public keys with OIDs of 0-12 arcs (arcs 0, 127/128, 2^14, 2^21, 2^28 boundaries, MaxInt32 and beyond, invalid first/second arcs, too few arcs) and key bodies nil/empty/zero/0-600 bytes (DER short/long length boundaries 125-129, 255-257): marshal bytes vs model, parse-back, EqualPublicKeys vs encoding equality; ParsePublicKey on valid, bit-flipped, truncated, extended and random bytes (lenient accepts compared through re-marshal); fingerprints of both layers and of a re-parsed key; peer ids (zero, all-ones, random): text, every kind of candidate text (one symbol mutated to a foreign symbol / another alphabet symbol / different trailing bits, lengths 0,1,42,44, 43 x "!", random), order of texts vs order of ids for pairs sharing long prefixes. distinct = distinct case text',
+        'theorems': 'C17_spki_roundtrip, C17_spki_invalid, C17_equal_iff_encoding, C17_fingerprint_function_of_key, C17_peerid_roundtrip, C17_peerid_order, C17_peerid_rejects',
+        'trusted': ['encoding/asn1 modelled as the strict DER codec of coq/Lib/Der.v (Go accepts more encodings; those are compared through re-marshalling)',
+                    'encoding/base64 modelled in coq/Lib/Base64.v', 'SHA-3 / SHAKE are opaque: only equality of fingerprints is observed'],
+        'level_text': 'Theorems prove, for every valid algorithm identifier and key body, that the SubjectPublicKeyInfo encoding round-trips and is injective (so key equality = encoding equality and the fingerprint is a function of the key for any hash), and for every 32-byte id that its text encoding round-trips, preserves order and is the ONLY text the parser accepts. Tied to the code by byte-for-byte comparison of MarshalPublicKey / MarshalText output and of parser acceptance on valid and mutated inputs; the alphabet and sizes are translator facts.',
+        'level_note': 'Known findings (reported as KNOWN-FINDING): the two layers hash with different functions; arcs above MaxInt32 marshal but do not parse. Trusted: Coq kernel, extraction + driver.ml, harness, translator.',
+        'assumptions': ['hash functions are deterministic functions of their input'],
+    },
 }
